@@ -273,14 +273,42 @@ func fill(r *rand.Rand, v reflect.Value, depth int) {
 	}
 }
 
-// mutate changes a random part of v (a value built by fill): re-fills one field of a struct (recursively),
-// or the whole value.
+// mutate changes a random part of v (a value built by fill): it walks into a random member (struct field, list
+// element, pointer target), applies a structured edit to a map or list it meets (edits.go), or re-fills.
 func mutate(r *rand.Rand, v reflect.Value, depth int) {
-	if v.Kind() == reflect.Struct && v.NumField() > 0 && depth < 3 && r.Intn(4) != 0 {
-		f := v.Field(r.Intn(v.NumField()))
-		if f.CanSet() {
-			mutate(r, f, depth+1)
+	if !v.CanSet() {
+		return
+	}
+	switch v.Kind() {
+	case reflect.Struct:
+		if v.NumField() > 0 && depth < 4 && r.Intn(4) != 0 {
+			f := v.Field(r.Intn(v.NumField()))
+			if f.CanSet() {
+				mutate(r, f, depth+1)
+				return
+			}
+		}
+	case reflect.Ptr:
+		if !v.IsNil() && r.Intn(2) == 0 {
+			mutate(r, v.Elem(), depth+1)
 			return
+		}
+	case reflect.Map:
+		if r.Intn(3) != 0 && editMapValue(r, v) {
+			return
+		}
+	case reflect.Slice:
+		if v.Len() > 0 && v.Type().Elem().Kind() != reflect.Uint8 {
+			switch r.Intn(3) {
+			case 0:
+				// lists are shared with nothing else here (objects are freshly decoded), edit an element in place
+				mutate(r, v.Index(r.Intn(v.Len())), depth+1)
+				return
+			case 1:
+				if editSliceValue(r, v, depth) {
+					return
+				}
+			}
 		}
 	}
 	fill(r, v, depth)
